@@ -66,7 +66,7 @@ func buildStateOpt(t *rapid.T, forPool bool) (*node.Node, []string) {
 		lateQuiet := forPool && long && i > length-50 // keep a wide uncertified range so that gossiped commits are not discarded as stale
 		if pc > cert && !lateQuiet && rapid.IntRange(0, 7).Draw(t, "agg") == 0 {
 			hi := pc
-			if nh, err := n.Exec.VerifLiskBFT().API().NextHeightBFTParameters(n.Store(), cert+1); err == nil && nh-1 < hi {
+			if nh, ok := n.NextParamHeight(cert + 1); ok && nh-1 < hi {
 				hi = nh - 1
 			}
 			if hi > cert {
@@ -90,8 +90,9 @@ func buildStateOpt(t *rapid.T, forPool bool) (*node.Node, []string) {
 
 // nextChange: smallest height > cert+1 at which a parameter set starts (LIP-0061), read from the real store key space.
 func nextChange(n *node.Node, cert uint32) (uint32, bool) {
-	nh, err := n.Exec.VerifLiskBFT().API().NextHeightBFTParameters(n.Store(), cert+1)
-	return nh, err == nil
+	// read from the raw key space, not through the API under test; the two must agree
+	nh, ok := n.NextParamHeight(cert + 1)
+	return nh, ok
 }
 
 type acCase struct {
